@@ -468,7 +468,10 @@ theorem C05_steps_readTokenSeparator (s : IS) :
 
 /-! ## the instance loop of pass 1 (`STEPfile::ReadData1`): termination, linear steps, cut-off, resynchronisation
 
-`_partial`: files without `&SCOPE` (the `CreateScopeInstances` branch is not modelled); what the dictionary and the instance manager answer is an arbitrary oracle. -/
+Full for pass 1: exchange and working-session files, every record kind incl. `&SCOPE` (which the code can never recognise:
+`GetKeyword` rejects `&` — regenerated fact `getKeywordAcceptsAmp = false`, so `CreateScopeInstances` always takes its first
+error exit); what the dictionary and the instance manager answer is an arbitrary oracle.  Pass 2's attribute readers remain a
+hypothesis (`C05_readData2_partial`). -/
 
 /-- `CreateSubSuperInstance` with all its inner loops (part loop with the regenerated cap on the number of names, garbage
 loop, `SkipSimpleRecord`, `PushPastImbedAggr`, `PushPastString`): for every byte string it ends with fuel `|bytes| + 2`,
@@ -487,7 +490,7 @@ un-reads, makes at most `54·(|bytes| + 1) + readCommentIters + 23` steps over a
 resynchronisation loop, `CreateInstance` skeleton, external-mapping part loop, `SkipSimpleRecord`, `PushPastImbedAggr`,
 token separators, comments, `SkipInstance`, `FindStartOfInstance`, string literals), never counts more than
 `_maxErrorCount + 1` instances it could not create, and aborts exactly when it has counted that many. -/
-theorem C05_readData1_partial (o : Oracle) (wsMode : Bool) (s : IS) :
+theorem C05_readData1 (o : Oracle) (wsMode : Bool) (s : IS) :
     ∃ r, readData1 o C05.entNmArrGuard C05.skipInstanceSkipsComments wsMode C05.readCommentIters C05.maxErrorCount
         (s.rest.length + 2) s = .ok r ∧
       r.s.m ≤ s.m ∧
@@ -588,6 +591,6 @@ recurse on the nesting depth of the input -/
 theorem C05_limits_regenerated :
     C05.readCommentIters = C05.maxCommentLength + 1 ∧ C05.maxErrorCount ≤ 100000 ∧ C05.imbedAggrRecursive = false
       ∧ C05.exportLoopChecksStreamCreate = true ∧ C05.exportLoopChecksStreamRead = true
-      ∧ C05.nmsCopyExactAlloc = true := by decide
+      ∧ C05.nmsCopyExactAlloc = true ∧ C05.getKeywordAcceptsAmp = false := by decide
 
 end StepModel.P21Safe
